@@ -462,6 +462,10 @@ def run(repo: Repo, rep: Report, tier: str) -> None:
 
     mask_rule(repo, rep, "C02.R7")
     default_substitution_rule(repo, rep, "C02.R8")
+    from .c04 import struct_rw_fold_rule
+
+    struct_rw_fold_rule(repo, rep, "C02.R9", 3 if tier == "thorough" else 2)
+
 
 
 
